@@ -26,6 +26,65 @@ CONSTS = [
     ("frameMask", "FRAME_MASK"),
 ]
 
+# ---------------------------------------------------------------------------
+# inventory tie: every efun of lib/efuns/func_spec.c whose return type can carry a sized value (string, array,
+# mapping, buffer, mixed) is either decided by a constructor of NV/C04/Sizes.lean or excluded here with a reason.
+# An efun that is in neither table breaks the tie (the check fails until it is classified).
+
+EFUN_COVERED = {
+    "explode": "explodeArray", "implode": "implodeString", "replace_string": "replaceRun/replaceFinish",
+    "allocate": "allocateArray", "allocate_buffer": "allocateBuffer", "allocate_mapping": "allocateMapping",
+    "keys": "mapKeys", "values": "mapKeys", "repeat_string": "repeatString", "sprintf": "sprintfAdd/sprintfFinish (incl. %*s field widths: sprintf_pad)",
+    "copy": "sameSize", "sort_array": "sameSize", "map": "sameSize", "map_array": "sameSize", "map_mapping": "sameSize",
+    "lower_case": "sameSize", "upper_case": "sameSize", "capitalize": "sameSize",
+    "filter": "partOf", "filter_array": "partOf", "filter_mapping": "partOf", "unique_array": "partOf",
+    "unique_mapping": "partOf (at most one key per element, inserted through find_for_insert: mapInsert)",
+}
+_LIST = "listing of driver state: one element per object / frame / entry, clamped to MAX_ARRAY_SIZE or allocated through allocate_empty_array (errors above the limit)"
+_SMALL = "result of a fixed small size (a name, a date, a status word), or bounded by a buffer of the C code"
+_EXIST = "returns a value that exists already (no construction)"
+EFUN_EXCLUDED = {
+    **{e: _LIST for e in ("all_previous_objects", "call_stack", "all_inventory", "deep_inventory", "commands", "livings", "users",
+                          "get_dir", "call_out_info", "objects", "deep_inherit_list", "shallow_inherit_list", "inherit_list",
+                          "children", "function_profile", "named_livings", "functions", "variables", "heart_beats",
+                          "heart_beat_info", "localtime", "stat")},
+    **{e: _SMALL for e in ("file_name", "query_verb", "typeof", "crypt", "oldcrypt", "ctime", "function_exists", "query_host_name",
+                           "query_ip_name", "query_ip_number", "in_edit", "rusage", "cache_stats", "malloc_status", "mud_status",
+                           "dump_file_descriptors", "query_load_average", "origin", "program_info", "memory_summary",
+                           "socket_error", "socket_address", "dump_socket_status", "geteuid", "getuid")},
+    **{e: _EXIST for e in ("evaluate", "previous_object", "match_path", "get_config", "query_notify_fail", "fetch_variable",
+                           "debug_info", "member_array")},
+    "clear_bit": "bit strings: bounded by MaxBitFieldBits (own limit, not a C04 limit)",
+    "set_bit": "bit strings: bounded by MaxBitFieldBits (own limit, not a C04 limit)",
+    "read_buffer": "file / buffer input: bounded by MaxByteTransfer (own limit); file access is C15/C16",
+    "read_bytes": "file input: bounded by MaxByteTransfer (own limit); file access is C15/C16",
+    "read_file": "file input: bounded by MaxReadFileSize (own limit); file access is C15/C16",
+    "save_variable": "NOT ANALYSED here: the saved text of a value is as long as the value is large (C16 covers save/restore); not bounded by MaxStringLength by any test this check knows",
+    "restore_variable": "NOT ANALYSED here: rebuilds values from text (C16); mapping size is tested in restore_mapping, arrays go through allocate_empty_array",
+    "regexp": "NOT ANALYSED here: result is a subset of the input array (match_regexp allocates at most the input size)",
+    "reg_assoc": "NOT ANALYSED here: result arrays are allocated through allocate_empty_array (errors above the limit)",
+    "strwrap": "not implemented by the driver (returns its argument)",
+}
+SIZED_RETURN = ("string", "mixed", "mapping", "buffer")
+
+
+def efun_inventory(repo):
+    """efuns of func_spec.c that return a sized value: [(name, return type text)]"""
+    import re
+    text = open(os.path.join(repo, "lib/efuns/func_spec.c"), errors="replace").read()
+    text = re.sub(r"/\*.*?\*/", " ", text, flags=re.S)
+    text = "\n".join(l for l in text.splitlines() if not l.lstrip().startswith("#") and not l.lstrip().startswith("//"))
+    out = []
+    for stmt in text.split(";"):
+        m = re.match(r"\s*(?:unsigned\s+)?(\w+)\s*(\*?)\s*(\w+)(?:\s+\w+)?\s*\(", stmt.replace("\n", " "))
+        if not m:
+            continue
+        typ, star, name = m.group(1), m.group(2), m.group(3)
+        if star or typ in SIZED_RETURN:
+            out.append((name, typ + star))
+    return out
+
+
 BASE_CONF = "MaxCallDepth 200\nStackSize 2000\n"
 
 
@@ -228,10 +287,12 @@ class C04(Prop):
             "catch, and (b) 3..8 constructor calls with arguments around the limit, 0, negative, 2^31, 2^32+k, 2^62, INT64 "
             "extremes under MaxArraySize/MaxBufferSize/MaxMappingSize/MaxStringLength 10..1000 (1 in 8 with limits around 65536); "
             "a case is non-trivial when its trace has >= 2 lines; distinct = distinct canonical implementation trace")
-    not_covered = ["instructions the master's error handler executes after a limit error (it runs on a refreshed budget; bounded by an allowance in the oracle, not modelled)",
+    not_covered = ["mapping * mapping (compose_mapping: keeps a subset of the left operand's keys) and the efuns marked NOT ANALYSED on the exclusion list of props/c04.py (save_variable, restore_variable, regexp, reg_assoc)",
+                   "work done inside one efun call that makes no callback (e.g. hashing, copying) is bounded by the size limits, not by the evaluation cost",
+                   "instructions the master's error handler executes after a limit error (it runs on a refreshed budget; bounded by an allowance in the oracle, not modelled)",
                    "wall-clock time and memory of a single efun call",
                    "unchecked value-stack pushes (argument pushes, merge_arg_lists): confirmed defect that belongs to C01",
-                   "constructors not listed in NV/C04/Sizes.lean (regexp, parse_command, read_file, users(), ...)",
+                   "efuns excluded from the size decisions: see EFUN_EXCLUDED in props/c04.py (each with its reason; the check fails when an efun returning a sized value is in neither table)",
                    "set_eval_limit(): a privileged efun that resets the budget by design"]
     trusted = ["props/c04.py: shape term -> LPC source translator", "literal slack of 5 in reset_interpreter (src/stack.c) copied into the model"]
 
@@ -240,6 +301,18 @@ class C04(Prop):
         self.conf = E.make_mudlib(ctx.rundir, master="/c04/master.c", extra_conf=BASE_CONF)
         self.idx = dict(getattr(ctx, "gen_vals", {}) or {})
         self.raw = {}
+
+    def extra_checks(self, ctx, tier, rng):
+        inv = efun_inventory(E.REPO)
+        self.inventory = inv
+        problems = []
+        if len(inv) < 60:
+            problems.append({"kind": "tie-broken", "name": "efun-inventory", "detail": "func_spec.c could not be parsed (%d efuns found)" % len(inv)})
+        unknown = sorted(set(n for n, _ in inv if n not in EFUN_COVERED and n not in EFUN_EXCLUDED))
+        if unknown:
+            problems.append({"kind": "tie-broken", "name": "efun-inventory:" + ",".join(unknown),
+                             "detail": "efuns returning a sized value that are neither decided in NV/C04/Sizes.lean nor on the exclusion list of props/c04.py: %s" % unknown})
+        return problems
 
     def run_impl(self, ctx, cases):
         res = E.run_harness(self.exe, self.conf, cases, ctx.rundir, args=["--timeout", os.environ.get("NV_C04_TIMEOUT", "6")])
@@ -452,11 +525,16 @@ class C04(Prop):
                     cmds.append("lower_case %d" % near(ls, False))
                 elif d in ("filter_array", "unique_array"):
                     n_ = min(near(la, False), la)
+                    if d == "unique_array":
+                        n_ = min(n_, 2000)     # unique_array searches its group list linearly: quadratic inside one efun
+
                     cmds.append("%s %d %d" % (d, n_, rng.choice([0, 1, n_ // 2, n_, n_ + 3])))
                 elif d in ("array_sub", "array_and"):
                     cmds.append("%s %d %d" % (d, min(near(la, False), la), min(near(la, False), la)))
                 else:
                     cmds.append("allocate_mapping %d" % rng.choice([0, 5, lm, lm + 1, 10 ** 6, -1, 2 ** 40]))
+                if rng.chance(1, 3):
+                    cmds.append("sprintf_pad %d %d" % (rng.choice([0, 1, ls - 1, ls, ls + 1, 65535, 65536, 70000]), rng.choice([1, ls // 2, ls])))
             elif k == "allocate":
                 cmds.append("allocate %d" % near(la))
             elif k == "add_array":
